@@ -17,7 +17,8 @@ ID = 'C04'
 LEVEL = 'exploration'
 RULE = ('Hypothesis strategy over simnet cases: stall point k in 1..150, stall 0.5-4.8 s (or 6-9 s for the release class), position in {sole consumer, one of '
         'two consumers, consumer behind a relay}, speeds 0-250 ms, delay classes < 100 ms, start times; Hypothesis target() maximises the overrun. '
-        'Non-trivial = the stall happened while the producer still had frames and >= 1 request was in flight or queued at the stall. Distinct = distinct case value.')
+        'Non-trivial = the stall happened while the producer still had frames and >= 1 request was in flight or queued at the stall. Distinct = distinct case value.'
+        ' Also: producers slower than the request interval, a quiet period of the producer before the stall, and an ephemeral side source on the stalling consumer (listed first or last).')
 ASSUMPTIONS = ['socket model of DESIGN.md section 3.3', 'the bound is checked on generated schedules with targeted maximisation, not proved']
 BUDGET = {'quick': 45, 'thorough': 900}
 BOUND = 9
